@@ -37,8 +37,15 @@ pub fn make_scenario(prop: &str, run_seed: u64, thorough: bool) -> Scenario {
     let params = if thorough { generate::GenParams::thorough() } else { generate::GenParams::quick() };
     match prop {
         "C01" | "C03" => {
-            let program = generate::gen_program(&mut w, &params);
-            let ops = generate::gen_history(&mut w, &program, &params);
+            let (program, ops) = if w.chance(3, 10) {
+                let p = generate::gen_program_tfc(&mut w);
+                let o = generate::gen_history_tfc(&mut w, &p);
+                (p, o)
+            } else {
+                let p = generate::gen_program(&mut w, &params);
+                let o = generate::gen_history(&mut w, &p, &params);
+                (p, o)
+            };
             let strict = w.chance(1, 2);
             let storage = if w.chance(1, 5) {
                 Storage::Db {
@@ -150,9 +157,13 @@ pub fn make_scenario(prop: &str, run_seed: u64, thorough: bool) -> Scenario {
             let mut params = params.clone();
             params.allow_ex = false;
             params.max_nodes = params.max_nodes.min(10);
-            let program = generate::gen_program(&mut w, &params);
-            let kind = w.below(4);
-            let ops = generate::gen_fault_history(&mut w, &program, &params, kind);
+            let kind = w.below(5);
+            let program = if kind == 4 || w.chance(2, 5) { generate::gen_program_tfc(&mut w) } else { generate::gen_program(&mut w, &params) };
+            let ops = if kind == 4 {
+                generate::gen_pass_panic_history(&mut w, &program)
+            } else {
+                generate::gen_fault_history(&mut w, &program, &params, kind)
+            };
             let storage = if w.chance(3, 10) {
                 Storage::Db { cache_cap: *w.pick(&[1, 4, 16]), ser_workers: 1, group_max: w.range(1, 3) as u32 }
             } else {
@@ -163,7 +174,12 @@ pub fn make_scenario(prop: &str, run_seed: u64, thorough: bool) -> Scenario {
                 ops,
                 cfg: RunCfg {
                     storage,
-                    strict: true,
+                    // strict mode keeps the oracle exemption-free; free mode
+                    // lets the faulted request itself run the engine's
+                    // firewall-repair and backward-projection passes
+                    // (concurrent phases only in strict mode: the coverage
+                    // model attributes a repair pass to one request at a time)
+                    strict: kind == 1 || w.chance(1, 2),
                     yield_every: if s.chance(1, 3) { Some(s.below(2) as usize) } else { None },
                     // await hooks only: a future is never dropped at a point
                     // where the real code cannot be suspended
